@@ -304,9 +304,20 @@ def _check_rb_repair(m, mod, f, rule, black):
     except typestate.Limit as e:
         rule.undecided(f.name, str(e), floc(m, f))
         return
+    def is_colour_load(v):
+        vi = f.get(v) if isinstance(v, str) else None
+        return vi is not None and vi.op == 'load' and resolve_addr(f, vi.o[0]).fsteps[-1:] == (('cstl_rbtree_node', 'c'),)
+    colour_guard = any(i.op == 'icmp' and i.pred in ('eq', 'ne') and any(is_colour_load(o) for o in i.o) and any(const_int(o) is not None for o in i.o)
+                       and f.dominates(i, first) for i in f.all_insts())
     for r, ps in res.exits:
         entered, blk = ps.auto
         if not entered:
+            # the repair may only be skipped when the removed node was not black: whatever else the guard tests (the node's
+            # position, its children) says nothing about the colour the tree lost
+            if colour_guard and not any(is_colour_load(a) and ((op == 'ne' and const_int(b) == black) or (op == 'eq' and const_int(b) is not None and const_int(b) != black))
+                                        for (op, a, b) in ps.known):
+                bad.append('a path to the return at %s skips the repair without knowing that the removed node was red: when a black node at that position '
+                           '(e.g. the root with one red child) is removed, its red child takes its place and stays red' % r.loc())
             continue
         x_now = ps.lookup(X.ref)
         if blk is None or blk != x_now:
@@ -835,20 +846,29 @@ def check_find_result(m, f, rule):
         return
     bad = set()
 
+    # the documented out-parameter (parent of the found element, or of where it would be): a pointer-to-pointer parameter
+    outp = ['$%d' % k for k, a_ in enumerate(f.args) if (a_.get('ty') or '').endswith('**')]
+
     def transfer(ins, last, ps):
         if ins.op == 'call':
             if ins.x.get('noreturn'):
                 return None
             if ins in cmps:
                 node = listrules.handed_node(f, ins.o[1])
-                return (ins.ref, ps.lookup(node) if node else '?')
+                return (ins.ref, ps.lookup(node) if node else '?') + tuple(last[2:])
+        elif ins.op == 'store' and isinstance(ins.o[1], str) and strip_bitcasts(f, ins.o[1]) in outp:
+            return tuple(last[:2]) + (True,)
         elif ins.op == 'ret' and ins.o:
+            if outp and not (len(last) > 2 and last[2]) and ps.knows(('eq', outp[0], 'null')) is not True:
+                bad.add('the parent out-parameter is not written on a path to the return at %s on which it is not known to be NULL: the caller is '
+                        'documented to get the parent of the found element (or of where it would be) and passes it on as the insert hint' % ins.loc())
+            last = tuple(last[:2])
             rv = ps.lookup(_k(strip_bitcasts(f, ins.o[0])))
             if const_int(rv) == 0 or rv == 'null':
                 return last
             node = listrules.handed_node(f, rv)
             node = ps.lookup(node) if node else None
-            if last == ('-', '-'):
+            if tuple(last[:2]) == ('-', '-'):
                 bad.add('a non-NULL result is returned at %s without any comparison' % ins.loc())
             else:
                 if ps.knows(('eq', last[0], '#0')) is not True:
